@@ -14,6 +14,7 @@ import (
 	"fmt"
 	"math"
 	"os"
+	"strconv"
 	"strings"
 
 	"github.com/bufbuild/protovalidate-go"
@@ -275,15 +276,11 @@ func execSchema(h *vh.H, op string) string {
 	if len(segs) < 2 {
 		return "bad-op"
 	}
-	var objDesc *string
-	if segs[0] != "~" {
-		b, ok := vh.UnHex(segs[0])
-		if !ok {
-			return "bad-op"
-		}
-		s := string(b)
-		objDesc = &s
+	root, ok := DecodeRoot(segs[0])
+	if !ok {
+		return "bad-op"
 	}
+	h.Count("schema.root." + root.Kind)
 	var specs []*Spec
 	for _, seg := range segs[1:] {
 		s, err := DecodeSpec(strings.Fields(seg))
@@ -296,11 +293,11 @@ func execSchema(h *vh.H, op string) string {
 			h.Count("schema.enum.default-filters." + map[bool]string{true: "options", false: "not-options(inadmissible)"}[enumFiltersOK(s)])
 		}
 	}
-	file, err := compileJ5s(FileText(objDesc, specs))
+	file, err := compileJ5s(FileText(root, specs))
 	if err != nil {
 		h.Count("schema.compile-err")
 		if os.Getenv("RULESH_DEBUG") != "" {
-			fmt.Fprintln(os.Stderr, "compile error:", err, "\n", FileText(objDesc, specs))
+			fmt.Fprintln(os.Stderr, "compile error:", err, "\n", FileText(root, specs))
 		}
 		return "err"
 	}
@@ -322,9 +319,24 @@ func execSchema(h *vh.H, op string) string {
 	}
 
 	// declared vs reflected, field by field
-	declObj := "obj name=" + hexS("Foo") + " desc=" + optS(objDesc)
+	declObj := declaredRoot(root)
 	if mem[0] != declObj {
-		h.Fail("schema-diff:object", op, fmt.Sprintf("declared %q reflected %q", declObj, mem[0]))
+		sig := "schema-diff:root"
+		dk, rk := strings.Fields(declObj), strings.Fields(mem[0])
+		for i := range dk {
+			if i < len(rk) && dk[i] != rk[i] {
+				key := dk[i][:strings.IndexByte(dk[i], '=')]
+				sig = "schema-diff:root:" + key
+				if (key == "ent" || key == "part") && root.Ent == nil && keysCapture(root, specs) {
+					// the reader's legacy lookup: a field called `keys` whose message type carries (j5.ext.v1.psm)
+					sig = "schema-diff:root:entity:invented[keys-field]"
+				}
+				break
+			}
+		}
+		h.Fail(sig, op, fmt.Sprintf("declared %q reflected %q", declObj, mem[0]))
+	} else if root.Kind == "oneof" || root.Ent != nil || len(root.AnyM) > 0 {
+		h.Nontrivial(declObj)
 	}
 	if len(mem) != len(specs)+1 {
 		h.Fail("schema-diff:property-count", op, fmt.Sprintf("declared %d properties, reflected %d", len(specs), len(mem)-1))
@@ -334,7 +346,7 @@ func execSchema(h *vh.H, op string) string {
 				h.Count("schema.oracle.skipped")
 				continue
 			}
-			d := declaredFlatFull(s, i+2)
+			d := declaredFlatFull(s, i+root.firstNumber())
 			if d.String() != mem[i+1] {
 				r := parseFlat(mem[i+1])
 				k, dv, rv := firstDiff(d, r)
@@ -409,23 +421,30 @@ func reflectAll(file protoreflect.FileDescriptor, specs []*Spec) (lines []string
 		}
 		return nil, "error"
 	}
-	os_, ok := rs.(*j5schema.ObjectSchema)
-	if !ok {
+	var props []*schema_j5pb.ObjectProperty
+	var rprops []*j5schema.ObjectProperty
+	switch root := rs.ToJ5Root().Type.(type) {
+	case *schema_j5pb.RootSchema_Object:
+		obj := root.Object
+		ent, part := "~", "~"
+		if obj.Entity != nil {
+			ent, part = hexS(obj.Entity.Entity), strconv.Itoa(int(obj.Entity.Part))
+		}
+		lines = append(lines, rootLine("obj", obj.Name, obj.Description, ent, part, obj.AnyMember))
+		props, rprops = obj.Properties, rs.(*j5schema.ObjectSchema).Properties
+	case *schema_j5pb.RootSchema_Oneof:
+		lines = append(lines, rootLine("oneof", root.Oneof.Name, root.Oneof.Description, "~", "~", nil))
+		props, rprops = root.Oneof.Properties, rs.(*j5schema.OneofSchema).Properties
+	default:
 		return nil, "error"
 	}
-	obj := os_.ToJ5Object()
-	desc := "~"
-	if obj.Description != "" {
-		desc = hexS(obj.Description)
-	}
-	lines = append(lines, "obj name="+hexS(obj.Name)+" desc="+desc)
-	for i, p := range obj.Properties {
+	for i, p := range props {
 		if p.Name == "z" {
 			continue
 		}
 		f := reflectedFlat(p)
 		// enum root schema reached through the field
-		var fs j5schema.FieldSchema = os_.Properties[i].Schema
+		var fs j5schema.FieldSchema = rprops[i].Schema
 		if af, ok := fs.(*j5schema.ArrayField); ok {
 			fs = af.Schema
 		}
@@ -444,6 +463,49 @@ func reflectAll(file protoreflect.FileDescriptor, specs []*Spec) (lines []string
 		lines = append(lines, f.String())
 	}
 	return lines, ""
+}
+
+func rootLine(kind, name, desc, ent, part string, anym []string) string {
+	d := "~"
+	if desc != "" {
+		d = hexS(desc)
+	}
+	return "root=" + kind + " name=" + hexS(name) + " desc=" + d + " ent=" + ent + " part=" + part + " anym=" + listS(anym)
+}
+
+// declaredRoot: what the source says about the root itself. `entity.part` not written = UNSPECIFIED (0).
+func declaredRoot(r *Root) string {
+	desc := ""
+	if r.Desc != nil {
+		desc = *r.Desc
+	}
+	if r.Kind == "oneof" {
+		return rootLine("oneof", "Foo", desc, "~", "~", nil)
+	}
+	ent, part := "~", "~"
+	if r.Ent != nil || r.Part != nil {
+		ent, part = "-", "0"
+		if r.Ent != nil {
+			ent = hexS(*r.Ent)
+		}
+		if r.Part != nil {
+			part = strconv.Itoa(*r.Part)
+		}
+	}
+	return rootLine("obj", "Foo", desc, ent, part, r.AnyM)
+}
+
+// keysCapture: a field of Foo whose proto name is `keys` and whose type is the entity-annotated object Bar
+func keysCapture(r *Root, specs []*Spec) bool {
+	if r.BarEnt == nil {
+		return false
+	}
+	for _, s := range specs {
+		if s.Name == "keys" && s.Kind == "obj" && !s.Map {
+			return true
+		}
+	}
+	return false
 }
 
 func declaredFlatFull(s *Spec, num int) *Flat {
